@@ -1181,6 +1181,12 @@ func c08NoLockAcrossWait(c *Ctx, cfns []*ssa.Function) {
 						}
 					}
 				}
+			case *ssa.UnOp:
+				// a bare receive waits for another goroutine: if that goroutine needs the mutex to get there (its exit
+				// path resets the shared slot), neither ever proceeds
+				if x.Op == token.ARROW {
+					what = "waits for another goroutine (channel receive)"
+				}
 			}
 			if what == "" {
 				return
